@@ -76,7 +76,27 @@ func (e *Env) lookupLocal(name string) *ssa.Alloc {
 			}
 		}
 	}
+	if best == nil && e.fr.fn == e.g.fn {
+		if al, ok := e.g.alias[name]; ok && al != name {
+			return e.lookupLocal(al) // the code renamed it: positional binding
+		}
+	}
 	return best
+}
+
+// heapLocal: a local that lives on the heap (captured or address-taken), under the contract's or the code's name.
+func (e *Env) heapLocal(name string) (*LValue, bool) {
+	if e.fr == nil {
+		return nil, false
+	}
+	if lv, ok := e.fr.heapLocals[name]; ok {
+		return lv, true
+	}
+	if al, ok := e.g.alias[name]; ok && e.fr.fn == e.g.fn {
+		lv, ok := e.fr.heapLocals[al]
+		return lv, ok
+	}
+	return nil, false
 }
 
 func (e *Env) eval(x Expr) *Value {
@@ -194,6 +214,12 @@ func (e *Env) evalIdent(name string) *Value {
 	if v, ok := e.bound[name]; ok {
 		return v
 	}
+	if al, ok := g.alias[name]; ok && (e.fr == nil || e.fr.fn == g.fn) {
+		// the code renamed this parameter or local: the contract's name stands for the code's (positional binding)
+		if _, inVars := e.vars[name]; !inVars && e.lookupLocal(name) == nil && (e.fr == nil || e.fr.params[name] == nil) {
+			name = al
+		}
+	}
 	if v, ok := e.vars[name]; ok {
 		return v
 	}
@@ -202,10 +228,8 @@ func (e *Env) evalIdent(name string) *Value {
 			t := a.Type().(*types.Pointer).Elem()
 			return &Value{T: t, L: e.st.cells[a]}
 		}
-		if e.fr != nil {
-			if lv, ok := e.fr.heapLocals[name]; ok {
-				return g.load(e.st, lv)
-			}
+		if lv, ok := e.heapLocal(name); ok {
+			return g.load(e.st, lv)
 		}
 	}
 	if e.fr != nil {
@@ -356,10 +380,8 @@ func (e *Env) evalAddr(x Expr) *LValue {
 				t := a.Type().(*types.Pointer).Elem()
 				return &LValue{Kind: lvCell, Cell: a, Root: t, T: t}
 			}
-			if e.fr != nil {
-				if lv, ok := e.fr.heapLocals[n.Name]; ok {
-					return lv
-				}
+			if lv, ok := e.heapLocal(n.Name); ok {
+				return lv
 			}
 		}
 		return nil
